@@ -1,5 +1,6 @@
 import LSProofs.Tie
 import LSProofs.NumLemmas
+import LSProofs.IntText
 /-!
 # C14 — integers format exactly as `Display` does
 
@@ -7,7 +8,9 @@ import LSProofs.NumLemmas
 length of the decimal text, sign included — for every value, by the generic lemma `lookup_exact`
 applied to the decidable row check; (b) the generated look-up table holds the two decimal digits of
 every `d < 100`; (c) the delegations (`usize → u64`, `NonZero → get()`, 128-bit → `itoa`) are the
-ones the model follows. The writer loop itself is `writer_eq_decimal` (see Writer.lean).
+ones the model follows. (d) the writer loop writes exactly `decimal` (`writer_exact`, by induction on the 4-digit loop), and
+(e) end to end, `into_repr` builds a string that reads `decimal v`, inline when it has at most 16
+characters (`into_repr_text_*`).
 -/
 namespace LS.C14
 open LS
@@ -70,6 +73,74 @@ theorem dispatch_ints :
            "NonZero<i8>", "NonZero<u8>", "NonZero<i16>", "NonZero<u16>", "NonZero<i32>", "NonZero<u32>",
            "NonZero<i64>", "NonZero<u64>", "NonZero<i128>", "NonZero<u128>", "NonZero<isize>", "NonZero<usize>"],
       (t, "Repr::from_num(*s)?") ∈ Gen.matchTypeArms := by decide
+
+/-- (d) the unrolled writer (generated LUT and literals) produces exactly the decimal text, for
+every magnitude a 64-bit type can hold and both signs -/
+theorem writer_exact (neg : Bool) (n : Nat) (hn : n < 2 ^ 64) :
+    writer true neg n = (if neg then [0x2D] else []) ++ decDigits 40 n := writer_wide neg n hn
+
+theorem writer_exact_8bit (neg : Bool) (n : Nat) (hn : n < 256) :
+    writer false neg n = (if neg then [0x2D] else []) ++ decDigits 40 n := writer_narrow neg n (by omega)
+
+/-- (e) end to end for `u64` (hence `usize`, `NonZero<u64>`, `NonZero<usize>` by `delegations`): for
+**every** value, `into_repr` either is refused its single allocation (nothing changed) or yields a
+handle that reads exactly what `Display` prints -/
+theorem into_repr_text_u64 {ocf base st hp} (hl : LInv ocf base hp (fun _ => 0)) (rf : Refuse) (v : Int)
+    (h1 : 0 ≤ v) (h2 : v ≤ 18446744073709551615) :
+    (∃ hp1, intoReprCore rf hp Gen.digitTable_u64 true v = some (none, hp1) ∧ hp1.slots = hp.slots) ∨
+    (∃ hp1 r, intoReprCore rf hp Gen.digitTable_u64 true v = some (some r, hp1) ∧
+      Good ocf base st hp1 r (decimal v) ∧ (decimal v).length ≤ capOf hp1 r) :=
+  intoReprCore_text hl rf _ true v (table_u64 v h1 h2) (writer_eq_decimal true v (by omega) (by simp))
+
+/-- … and for `i64` (hence `isize` and the NonZero forms), including `i64::MIN` -/
+theorem into_repr_text_i64 {ocf base st hp} (hl : LInv ocf base hp (fun _ => 0)) (rf : Refuse) (v : Int)
+    (h1 : -9223372036854775808 ≤ v) (h2 : v ≤ 9223372036854775807) :
+    (∃ hp1, intoReprCore rf hp Gen.digitTable_i64 true v = some (none, hp1) ∧ hp1.slots = hp.slots) ∨
+    (∃ hp1 r, intoReprCore rf hp Gen.digitTable_i64 true v = some (some r, hp1) ∧
+      Good ocf base st hp1 r (decimal v) ∧ (decimal v).length ≤ capOf hp1 r) :=
+  intoReprCore_text hl rf _ true v (table_i64 v h1 h2) (writer_eq_decimal true v (by omega) (by simp))
+
+theorem into_repr_text_u32 {ocf base st hp} (hl : LInv ocf base hp (fun _ => 0)) (rf : Refuse) (v : Int)
+    (h1 : 0 ≤ v) (h2 : v ≤ 4294967295) :
+    (∃ hp1, intoReprCore rf hp Gen.digitTable_u32 true v = some (none, hp1) ∧ hp1.slots = hp.slots) ∨
+    (∃ hp1 r, intoReprCore rf hp Gen.digitTable_u32 true v = some (some r, hp1) ∧
+      Good ocf base st hp1 r (decimal v) ∧ (decimal v).length ≤ capOf hp1 r) :=
+  intoReprCore_text hl rf _ true v (table_u32 v h1 h2) (writer_eq_decimal true v (by omega) (by simp))
+
+theorem into_repr_text_i32 {ocf base st hp} (hl : LInv ocf base hp (fun _ => 0)) (rf : Refuse) (v : Int)
+    (h1 : -2147483648 ≤ v) (h2 : v ≤ 2147483647) :
+    (∃ hp1, intoReprCore rf hp Gen.digitTable_i32 true v = some (none, hp1) ∧ hp1.slots = hp.slots) ∨
+    (∃ hp1 r, intoReprCore rf hp Gen.digitTable_i32 true v = some (some r, hp1) ∧
+      Good ocf base st hp1 r (decimal v) ∧ (decimal v).length ≤ capOf hp1 r) :=
+  intoReprCore_text hl rf _ true v (table_i32 v h1 h2) (writer_eq_decimal true v (by omega) (by simp))
+
+theorem into_repr_text_u16 {ocf base st hp} (hl : LInv ocf base hp (fun _ => 0)) (rf : Refuse) (v : Int)
+    (h1 : 0 ≤ v) (h2 : v ≤ 65535) :
+    (∃ hp1, intoReprCore rf hp Gen.digitTable_u16 true v = some (none, hp1) ∧ hp1.slots = hp.slots) ∨
+    (∃ hp1 r, intoReprCore rf hp Gen.digitTable_u16 true v = some (some r, hp1) ∧
+      Good ocf base st hp1 r (decimal v) ∧ (decimal v).length ≤ capOf hp1 r) :=
+  intoReprCore_text hl rf _ true v (table_u16 v h1 h2) (writer_eq_decimal true v (by omega) (by simp))
+
+theorem into_repr_text_i16 {ocf base st hp} (hl : LInv ocf base hp (fun _ => 0)) (rf : Refuse) (v : Int)
+    (h1 : -32768 ≤ v) (h2 : v ≤ 32767) :
+    (∃ hp1, intoReprCore rf hp Gen.digitTable_i16 true v = some (none, hp1) ∧ hp1.slots = hp.slots) ∨
+    (∃ hp1 r, intoReprCore rf hp Gen.digitTable_i16 true v = some (some r, hp1) ∧
+      Good ocf base st hp1 r (decimal v) ∧ (decimal v).length ≤ capOf hp1 r) :=
+  intoReprCore_text hl rf _ true v (table_i16 v h1 h2) (writer_eq_decimal true v (by omega) (by simp))
+
+theorem into_repr_text_u8 {ocf base st hp} (hl : LInv ocf base hp (fun _ => 0)) (rf : Refuse) (v : Int)
+    (h1 : 0 ≤ v) (h2 : v ≤ 255) :
+    (∃ hp1, intoReprCore rf hp Gen.digitTable_u8 false v = some (none, hp1) ∧ hp1.slots = hp.slots) ∨
+    (∃ hp1 r, intoReprCore rf hp Gen.digitTable_u8 false v = some (some r, hp1) ∧
+      Good ocf base st hp1 r (decimal v) ∧ (decimal v).length ≤ capOf hp1 r) :=
+  intoReprCore_text hl rf _ false v (table_u8 v h1 h2) (writer_eq_decimal false v (by omega) (fun _ => by omega))
+
+theorem into_repr_text_i8 {ocf base st hp} (hl : LInv ocf base hp (fun _ => 0)) (rf : Refuse) (v : Int)
+    (h1 : -128 ≤ v) (h2 : v ≤ 127) :
+    (∃ hp1, intoReprCore rf hp Gen.digitTable_i8 false v = some (none, hp1) ∧ hp1.slots = hp.slots) ∨
+    (∃ hp1 r, intoReprCore rf hp Gen.digitTable_i8 false v = some (some r, hp1) ∧
+      Good ocf base st hp1 r (decimal v) ∧ (decimal v).length ≤ capOf hp1 r) :=
+  intoReprCore_text hl rf _ false v (table_i8 v h1 h2) (writer_eq_decimal false v (by omega) (fun _ => by omega))
 
 -- non-vacuity: concrete values at row boundaries
 example : lookupRows Gen.digitTable_i64 (-1000000000000000000) = some 20 ∧ decimal (-1000000000000000000) =
